@@ -133,6 +133,24 @@ func (f *failAfter) Read(p []byte) (int, error) {
 	return n, err
 }
 
+// keepAndScribble is what a caller may do once a session has returned: it copies the results it
+// wants to keep and then reuses its own values - the result numbers and the input it passed in -
+// for something else. Whatever the library still holds of them must not matter to later sessions.
+func keepAndScribble(out []*big.Int, in *big.Int) []*big.Int {
+	kept := make([]*big.Int, len(out))
+	for i, v := range out {
+		if v != nil {
+			kept[i] = new(big.Int).Set(v)
+			v.SetUint64(0xdeadbeefcafe)
+			v.Lsh(v, 70)
+		}
+	}
+	if in != nil {
+		in.SetInt64(-1)
+	}
+	return kept
+}
+
 // Out is what a session produced.
 type Out struct {
 	RR           rt.Result
@@ -256,6 +274,9 @@ func Run(t *rt.Tape, s Session) *Out {
 			o.GOut, o.GErr = circuit.Garbler(cfg, conn, spy, s.Circ, s.X, false)
 			o.GDone = true
 			o.OTWires, spy.Wires = spy.Wires, nil
+			if s.Next != nil || s.Par != nil {
+				o.GOut = keepAndScribble(o.GOut, s.X)
+			}
 			if o.GErr != nil {
 				abort(ea, ea2)
 				return
@@ -323,6 +344,9 @@ func Run(t *rt.Tape, s Session) *Out {
 			conn := p2p.NewConn(eb)
 			o.EOut, o.EErr = circuit.Evaluator(conn, otE, s.Circ, s.Y, false)
 			o.EDone = true
+			if s.Next != nil || s.Par != nil {
+				o.EOut = keepAndScribble(o.EOut, s.Y)
+			}
 			if o.EErr != nil {
 				abort(eb, eb2)
 				return
@@ -453,7 +477,7 @@ func (w *C02) Run(t *rt.Tape, trace bool) *core.Result {
 	// apps/garbled keeps one OT object and one circuit value for all its
 	// sessions): over a fresh connection, or over the same one (which is what a
 	// COT created with shared = true is for).
-	sess := Session{Circ: circ, X: in[0], Y: in[1], OT: kind, Pipe: pipe, Trace: trace}
+	sess := Session{Circ: circ, X: new(big.Int).Set(in[0]), Y: new(big.Int).Set(in[1]), OT: kind, Pipe: pipe, Trace: trace}
 	var circ2 *circuit.Circuit
 	var in2, want2 []*big.Int
 	second := ""
